@@ -21,12 +21,12 @@
 namespace Cjet.Startup
 
 /-- one scripted answer.  Generic calls: `ok` succeeds, anything else fails.
-    `getaddrinfo`: `ok` = one entry of the literal's own family, `addrs fs` = one entry per element
-    (`true` = AF_INET6), anything else fails.  `accept`: `retry` = ECONNABORTED/EINTR, `fail` = an errno
+    `getaddrinfo`: `ok` = one entry, `addrs n` = `n` entries (all of the numeric literal's own family, as
+    AI_NUMERICHOST guarantees), anything else fails.  `accept`: `retry` = ECONNABORTED/EINTR, `fail` = an errno
     of the fatal class, `conn` = a connection that becomes a peer, anything else = EAGAIN-like. -/
 inductive Ans where
   | ok | fail | retry | conn
-  | addrs (fams : List Bool)
+  | addrs (n : Nat)
   deriving DecidableEq, Repr
 
 inductive Sig where | term | int | pipe deriving DecidableEq, Repr
@@ -82,6 +82,8 @@ structure K where
 def K.emit (k : K) (e : Ev) : K := { k with tr := k.tr ++ [e] }
 def K.ans (k : K) : Ans := k.script.headD .ok
 def K.adv (k : K) : K := { k with script := k.script.tail }
+/-- the kernel hands out descriptor `next` -/
+def K.bump (k : K) : K := { k with next := k.next + 1 }
 
 /-- a call that succeeds or fails -/
 def K.sys (k : K) (mk : Bool → Ev) : Bool × K :=
@@ -90,7 +92,7 @@ def K.sys (k : K) (mk : Bool → Ev) : Bool × K :=
 /-- `socket()` -/
 def openSocket (f : Fam) (k : K) : Option Nat × K :=
   if k.ans = .ok then
-    (some k.next, ({ k.adv with next := k.next + 1 } : K).emit (.socket f (some k.next)))
+    (some k.next, k.adv.bump.emit (.socket f (some k.next)))
   else (none, k.adv.emit (.socket f none))
 
 /-- set_fd_non_blocking (linux_io.c:66-81) -/
@@ -119,38 +121,38 @@ def createPlain (f : Fam) (t : Target) (k : K) : Option Nat × K :=
 def createAll (p : Port) : K → Option Nat × K := createPlain .inet6 (.any p)
 def createUds : K → Option Nat × K := createPlain .unix .udsAbstract
 
-/-- the `for (rp = servinfo; …)` loop of create_server_socket_bound (:464-498).
-    Result: the variable `listen_fd` (`none` = -1; it may name a descriptor that was closed again),
-    `rp != NULL`, state. -/
-def boundLoop (p : Port) : List Bool → Option Nat → K → Option Nat × Bool × K
-  | [], last, k => (last, false, k)
-  | v6 :: rest, _, k =>
+/-- the `for (rp = servinfo; …)` loop of create_server_socket_bound (:464-498) over `n` entries of
+    family `v6`.  Result: the variable `listen_fd` (`none` = -1; it may name a descriptor that was
+    closed again), `rp != NULL`, state. -/
+def boundLoop (v6 : Bool) (p : Port) : Nat → Option Nat → K → Option Nat × Bool × K
+  | 0, last, k => (last, false, k)
+  | n + 1, _, k =>
     match (openSocket (if v6 then .inet6 else .inet) k).1 with
-    | none => boundLoop p rest none (openSocket (if v6 then .inet6 else .inet) k).2
+    | none => boundLoop v6 p n none (openSocket (if v6 then .inet6 else .inet) k).2
     | some fd =>
       let k1 := (openSocket (if v6 then .inet6 else .inet) k).2
       let r := k1.sys (.sockopt fd .reuse)
-      if r.1 = false then boundLoop p rest (some fd) (r.2.emit (.close fd)) else
+      if r.1 = false then boundLoop v6 p n (some fd) (r.2.emit (.close fd)) else
       let r6 := if v6 then r.2.sys (.sockopt fd .v6only) else (true, r.2)
-      if r6.1 = false then boundLoop p rest (some fd) (r6.2.emit (.close fd)) else
+      if r6.1 = false then boundLoop v6 p n (some fd) (r6.2.emit (.close fd)) else
       let r3 := setNonBlocking fd r6.2
-      if r3.1 = false then boundLoop p rest (some fd) (r3.2.emit (.close fd)) else
+      if r3.1 = false then boundLoop v6 p n (some fd) (r3.2.emit (.close fd)) else
       let r4 := r3.2.sys (.bind fd (if v6 then .lo6 p else .lo4 p))
       if r4.1 = true then (some fd, true, r4.2)
-      else boundLoop p rest (some fd) (r4.2.emit (.close fd))
+      else boundLoop v6 p n (some fd) (r4.2.emit (.close fd))
 
-/-- the addrinfo list `getaddrinfo` answers with -/
-def gaiEntries (n : Node) : Ans → Option (List Bool)
-  | .ok => some [decide (n = .lo6)]
-  | .addrs fs => some fs
+/-- the number of addrinfo entries `getaddrinfo` answers with -/
+def gaiEntries : Ans → Option Nat
+  | .ok => some 1
+  | .addrs n => some n
   | _ => none
 
 /-- create_server_socket_bound (:443-514) -/
 def createBound (n : Node) (p : Port) (k : K) : Option Nat × K :=
-  match gaiEntries n k.ans with
+  match gaiEntries k.ans with
   | none => (none, k.adv.emit (.gai n p none))
-  | some fams =>
-    let l := boundLoop p fams none (k.adv.emit (.gai n p (some fams.length)))
+  | some cnt =>
+    let l := boundLoop (decide (n = .lo6)) p cnt none (k.adv.emit (.gai n p (some cnt)))
     let k2 := l.2.2.emit .freeai
     match l.1, l.2.1 with
     | some fd, true =>
